@@ -341,7 +341,9 @@ func (m *MonC05) classify(op string, res TxResult, s *Snap, val, denom string, a
 	}
 	// subshare-stuck: the delegator-share total of (validator, asset) is below one share, so tokens are
 	// converted to shares 1:1 and a position holding less than one share can never cover 1 token
-	if strings.Contains(msg, "insufficient delegation shares") && v != nil && v.HasInfo {
+	insShares := res.IsErr("staking", 22, "insufficient delegation shares")
+	insTokens := res.IsErr("alliance", 21, "insufficient tokens")
+	if insShares && v != nil && v.HasInfo {
 		S := decAmount(v.Info.TotalDelegatorShares, denom)
 		if S.IsPositive() && S.TruncateInt().IsZero() {
 			return "subshare-stuck", fmt.Sprintf("%s on %s/%s fails with %q: the validator's delegator-share total is %s (< 1), tokens are converted to shares 1:1 and the position, although worth >= 1 token, can never be undelegated", op, m.R.W.Name(val), denom, msg, S)
@@ -358,12 +360,12 @@ func (m *MonC05) classify(op string, res TxResult, s *Snap, val, denom string, a
 			return "pool-short", fmt.Sprintf("%s fails with %q: the rewards pool cannot pay the claim made on the way (consequence of the recorded C12 findings)", op, msg)
 		}
 	}
-	if huge && (strings.Contains(msg, "negative coin amount") || strings.Contains(msg, "overflow") || strings.Contains(msg, "insufficient tokens") || strings.Contains(msg, "insufficient delegation shares") || strings.Contains(msg, "division by zero")) {
+	if huge && (strings.Contains(msg, "negative coin amount") || strings.Contains(msg, "overflow") || insTokens || insShares || strings.Contains(msg, "division by zero")) {
 		return "precision-18dec", fmt.Sprintf("%s fails at magnitude >= 1e16 with %q: 18-digit share/token ratios lose base-unit precision", op, msg)
 	}
 	// the validator's fraction of the asset (validator shares / share total) has fewer than six
 	// significant digits at 18 decimals: its token value is off by more than 1e-6 relatively
-	if v != nil && v.HasInfo && !a.TotalValidatorShares.IsZero() && (strings.Contains(msg, "insufficient tokens") || strings.Contains(msg, "insufficient delegation shares") || strings.Contains(msg, "negative coin amount")) {
+	if v != nil && v.HasInfo && !a.TotalValidatorShares.IsZero() && (insTokens || insShares || strings.Contains(msg, "negative coin amount")) {
 		frac := decAmount(v.Info.ValidatorShares, denom).Quo(a.TotalValidatorShares)
 		// error of the share count needed for an amount: the fraction vs/tvs is stored with 18 digits, so the
 		// validator's token value (and every share count derived from it) is off by 1e-18/frac relatively;
@@ -499,12 +501,12 @@ func (m *MonC05) Probe(idx int) {
 			// up, the full reported balance cannot be undelegated but balance-1 can
 			roundedUp := new(big.Rat).SetInt(bal).Cmp(s.Value(pk)) > 0
 			predicted := emulateUndelegateRefusal(s, pk, math.NewIntFromBigInt(bal))
-			if (strings.Contains(res.Err, "insufficient delegation shares") || strings.Contains(res.Err, "insufficient tokens")) && bal.Cmp(big.NewInt(1)) == 0 && roundedUp && predicted {
+			if (res.IsErr("staking", 22, "insufficient delegation shares") || res.IsErr("alliance", 21, "insufficient tokens")) && bal.Cmp(big.NewInt(1)) == 0 && roundedUp && predicted {
 				rep.KnownFinding("C05", "rounder-balance", "the position (%s,%s,%s) reports a balance of 1 for an exact value of %s; undelegating 1 fails with %q and nothing smaller can be undelegated", w.Name(pk.Del), w.Name(pk.Val), pk.Denom, ratStr(s.Value(pk)), res.Err)
 				rep.Class("C05.known.rounder-balance")
 				continue
 			}
-			if (strings.Contains(res.Err, "insufficient delegation shares") || strings.Contains(res.Err, "insufficient tokens")) && bal.Cmp(big.NewInt(1)) > 0 {
+			if (res.IsErr("staking", 22, "insufficient delegation shares") || res.IsErr("alliance", 21, "insufficient tokens")) && bal.Cmp(big.NewInt(1)) > 0 {
 				b2ctx, _ := w.Ctx.CacheContext()
 				m.R.TopUpPool(b2ctx) // the retry must not depend on the pool's solvency (judged separately)
 				r1 := w.RunMsgOn(b2ctx, m.R.buildMsg(Step{K: "claim", A: a, V: vi, Den: pk.Denom}), true)
